@@ -215,6 +215,9 @@ OnVerify(ev) ==
   IN
   /\ Total(ev)
   /\ Chk(WhyClause(IF r.v = "reject" THEN r.why ELSE "none"), r.v = "reject", ~implok)
+  \* behaviours whose ONLY flaw is one key-binding requirement (vacuity counters per requirement; C04)
+  /\ \A f \in {"absent", "sig", "typ", "aud", "nonce", "sdh"} :
+        Chk("verify.kb.only." \o f, r.v = "reject" /\ r.why = "kb" /\ r.flaws = {f}, ~implok)
   /\ Chk("verify.claims", implok /\ r.v # "reject", claims = r.claims)
   /\ Chk("verify.genuine", implok /\ creds # {},
          \A c \in creds : LET g == {d \in c.genuine : d.id \in DiscIds(m)} IN
